@@ -206,3 +206,31 @@ int openat64(int d, const char *p, int flags, ...) {
     if (creating(flags) && (d == AT_FDCWD || (p && p[0] == '/'))) { int f = point("create", p, 0); if (f > 0) { errno = f; return -1; } }
     return real(d, p, flags, m);
 }
+
+/* Rust's io::copy between two files does not call write(): it uses copy_file_range() or sendfile().  They change the
+ * output file, so they are points too (kill mode) and can fail or come up short (fault mode). */
+ssize_t copy_file_range(int fd_in, off64_t *off_in, int fd_out, off64_t *off_out, size_t len, unsigned int flags) {
+    static ssize_t (*real)(int, off64_t *, int, off64_t *, size_t, unsigned int);
+    if (!real) real = dlsym(RTLD_NEXT, "copy_file_range");
+    int f = len > 0 ? fdpoint("write", fd_out) : 0;
+    if (f > 0) { errno = f; return -1; }
+    if (f < 0 && len > 1) len = len / 2;
+    if (!real) { errno = ENOSYS; return -1; }
+    return real(fd_in, off_in, fd_out, off_out, len, flags);
+}
+ssize_t sendfile(int out_fd, int in_fd, off_t *offset, size_t count) {
+    static ssize_t (*real)(int, int, off_t *, size_t);
+    if (!real) real = dlsym(RTLD_NEXT, "sendfile");
+    int f = count > 0 ? fdpoint("write", out_fd) : 0;
+    if (f > 0) { errno = f; return -1; }
+    if (f < 0 && count > 1) count = count / 2;
+    return real(out_fd, in_fd, offset, count);
+}
+ssize_t sendfile64(int out_fd, int in_fd, off64_t *offset, size_t count) {
+    static ssize_t (*real)(int, int, off64_t *, size_t);
+    if (!real) real = dlsym(RTLD_NEXT, "sendfile64");
+    int f = count > 0 ? fdpoint("write", out_fd) : 0;
+    if (f > 0) { errno = f; return -1; }
+    if (f < 0 && count > 1) count = count / 2;
+    return real(out_fd, in_fd, offset, count);
+}
